@@ -4,7 +4,7 @@ import json,glob,os,re
 ROOT='/verif'
 s=open(f'{ROOT}/DESIGN.md').read()
 B='<!-- GENERATED:BEGIN -->'; E='<!-- GENERATED:END -->'
-out=[B,'\n### 10.3 Seeded changes: which check catches which change\n\n',
+out=[B,'\n### 10.4 Seeded changes: which check catches which change\n\n',
 "Independent sub-agents were given only the text of one property and a scratch worktree of the repository (nothing from `/verif`) and asked for a subtle\n"
 "property-breaking change that compiles, passes the existing tests and needs something specific to manifest, with a demonstration test. Each change kept here\n"
 "was confirmed in a scratch worktree (`tools/confirm_seed.sh`: demonstration passes without and fails with the change; `cargo test -p c2pa --lib` gives the same\n"
@@ -17,7 +17,7 @@ for f in sorted(glob.glob(f'{ROOT}/seeded/*/meta.json')):
     esc=lambda t: str(t).replace('|','\\|').replace('\n',' ')
     out.append(f"| {m['seed']} | {m['breaks_property']} | {esc(m['change'])} | {esc(m['needs_to_manifest'])} | **{esc(m['status'])}** — {esc(m['caught_by'])} |\n")
 out.append('\nThe implementers\' own mutants (one or more per property, `/verif/mutants/*.diff`, each caught by its check at the quick tier) are listed in the header comment of each `props/src/cXX.rs`.\n')
-out.append('\n### 10.4 As-built sizes (quick tier, from the committed evidence files)\n\n| id | level | evaluations | distinct non-trivial | states | transitions | known-finding cases | wall s |\n|---|---|---|---|---|---|---|---|\n')
+out.append('\n### 10.5 As-built sizes (quick tier, from the committed evidence files)\n\n| id | level | evaluations | distinct non-trivial | states | transitions | known-finding cases | wall s |\n|---|---|---|---|---|---|---|---|\n')
 for f in sorted(glob.glob(f'{ROOT}/evidence/C*.json')):
     d=json.load(open(f)); c=d['coverage']
     out.append(f"| {d['property_id']} | {d['level']} | {c.get('evaluations')} | {c.get('distinct_nontrivial')} | {c.get('states','')} | {c.get('transitions','')} | {d.get('known_finding_cases',0)} | {d['wall_s']:.1f} |\n")
